@@ -9,6 +9,7 @@ from vlib import cz, clist, cbool, cstr
 
 sys.path.insert(0, os.path.join(vlib.ROOT, "translate"))
 import lua2coq  # noqa: E402
+import selftest as lua_selftest  # noqa: E402
 
 NUMERAL = re.compile(r"-?(0|[1-9][0-9]*)$")
 
@@ -19,9 +20,16 @@ def cbulk(s):
     return "(BStr %s)" % cstr(s)
 
 
-def regen_scripts(pairs):
-    """pairs: [(repo-relative lua path, module name)] -> notes; raises on unsupported Lua."""
-    notes = []
+def regen_scripts(pairs, tier="quick"):
+    """pairs: [(repo-relative lua path, module name)] -> notes; raises on unsupported Lua.
+    The translator's own self-test runs first (golden translations + must-reject corpus on
+    every run; the translated snippets are also evaluated in Coq in the thorough tier)."""
+    errs = lua_selftest.run(coq=(tier == "thorough"), coqdir=vlib.COQ)
+    if errs:
+        raise RuntimeError("lua2coq self-test failed: " + "; ".join(errs)[:1500])
+    notes = ["lua2coq self-test ok (%d golden, %d rejected%s)" % (
+        len(lua_selftest.GOLDEN), len(lua_selftest.REJECT),
+        ", %d evaluated in Coq" % len(lua_selftest.EVAL) if tier == "thorough" else "")]
     for rel, mod in pairs:
         src = os.path.join(vlib.REPO, rel)
         out = os.path.join(vlib.COQ, "gen", mod + ".v")
@@ -62,7 +70,7 @@ class C19(Property):
 
     def regen(self, ctx):
         return regen_scripts([("core/stores/redis/lockscript.lua", "Lua_lock"),
-                              ("core/stores/redis/delscript.lua", "Lua_del")])
+                              ("core/stores/redis/delscript.lua", "Lua_del")], ctx.tier)
 
     def prepare(self, ctx):
         ok, res = vlib.go_build("c19")
